@@ -27,6 +27,9 @@ PLAN = {
     "C16": {"steps": [codec(part="dynamic")]},
     "C17": {"steps": [codec()]},
     "C09": {"steps": [net(), net(variant="race", tiers=["thorough"], scale={"thorough": 0.05})]},
+    "C11": {"steps": [net()]},
+    "C18": {"steps": [net(), net(variant="race")]},
+    "C19": {"steps": [net(), net(variant="race", tiers=["thorough"])]},
     "C20": {"steps": [net(), net(variant="race", tiers=["thorough"])]},
 }
 LEVEL["C09"] = "fault_enumeration"
